@@ -35,6 +35,7 @@ RULE = (
 RULE += (" " + 'A quarter of the cases first converts a rule from another log source with the same backend and pipeline objects (the rewrite must not depend on what was processed before).')
 RULE += (" Values include long strings (40-75 characters) with 17-33 matches of every replacement pattern, long camel-case runs and long paths.")
 RULE += (" Items also carry the cased modifier (alone and with contains).")
+RULE += (" Hashes items also carry contains, all and neq.")
 ASSUMPTIONS = [
     "the rewrite engine in vf/props/c12.py states the documented meaning of each transformation",
     "negated items under one-to-many mappings, case-sensitive strings under value transformations and "
@@ -109,7 +110,7 @@ def item_formula(it):
             fs = [rr.value_atom(var["field"], v, True) for v in var["values"]]
             f = fs[0] if len(fs) == 1 else (AND(fs) if it["linking"] == "and" else OR(fs))
         vs.append(f)
-    f = vs[0] if len(vs) == 1 else OR(vs)
+    f = vs[0] if len(vs) == 1 else (AND(vs) if it.get("variant_linking") == "and" else OR(vs))
     return NOT(f) if it["negated"] else f
 
 
@@ -358,7 +359,8 @@ def apply_transformation(t, structs, state):
                         if not algo:
                             raise ExpectFail("no valid hash")
                         it["variants"] = [{"field": k, "values": [("str", rs.parse(h), False) for h in hs]} for k, hs in algo.items()]
-                        it["linking"] = "or"
+                        # the hash fields are linked like the values were (all: AND); a negation (neq) stays on the whole item
+                        it["variant_linking"] = it["linking"]
 
 
 def expected(doc, chain, vars_=None):
@@ -588,7 +590,7 @@ def docs(draw, hashes=False, placeholders=False):
         else:
             det[n] = draw(st.lists(st.sampled_from(["kw1", "key word", "x*y"]), min_size=1, max_size=2))
     if hashes:
-        det[names[0]] = {"Hashes": draw(st.lists(st.sampled_from(["MD5=" + "a" * 32, "SHA1=" + "b" * 40, "c" * 64, "IMPHASH=" + "d" * 32, "*MD5=" + "e" * 32 + "*"]), min_size=1, max_size=3, unique=True))}
+        det[names[0]] = {"Hashes" + draw(st.sampled_from(["", "", "|contains", "|neq", "|contains|all", "|all", "|contains|neq"])): draw(st.lists(st.sampled_from(["MD5=" + "a" * 32, "SHA1=" + "b" * 40, "c" * 64, "IMPHASH=" + "d" * 32, "*MD5=" + "e" * 32 + "*"]), min_size=1, max_size=3, unique=True))}
     if placeholders:
         det[names[0]] = {"f|expand": draw(st.sampled_from(["%p%", "a%p%b", "%p%x%q%"]))}
     from vf.gen.rules import condition_exprs
